@@ -574,3 +574,253 @@ def extend_profile(p):
     })
     p.pure_fns.update({'canResume', 'enabled', 'streamResumed', 'isConnected', 'state', 'errorString', 'host', 'port', 'streamErrorToString'})
     return p
+
+
+# ====================================================================== C10 follow-up: the callers of openSession()
+# Generic tagged-struct model of std::variant values handed to continuations (A-STD-VARIANT-ORDER): registered by the unit from the
+# REAL parameter type of the continuation (alternative list in declaration order); std::get_if / std::holds_alternative / std::get
+# are lowered to tests of the index (std::get on the inactive alternative throws: an obligation, not an assumption).
+VARIANTS = {}     # C struct name -> [(short C++ alternative, C type, field name)]
+
+
+def register_variant(prof, cpp_types, cname, alts, lw):
+    """alts: short C++ alternative names in declaration order; returns the C struct text"""
+    rows = []
+    for a in alts:
+        rows.append((a, lw.ctype(a), alt_cname(a)))
+    if len({r[1] for r in rows}) != len(rows):
+        raise Unsupported('variant %s: two alternatives share a C type' % cname)
+    VARIANTS[cname] = rows
+    for t in cpp_types:
+        prof.types[strip_type(t)] = cname
+    prof.class_types.add(cname)
+    return 'typedef struct %s {\n  size_t index;   /* std::variant::index() */\n%s\n} %s;' % (cname, '\n'.join('  %s %s;' % (r[1], r[2]) for r in rows), cname)
+
+
+def _variant_of(lw, n):
+    """(struct name, C expression of the variant object) if n denotes (a pointer to / reference to) a registered variant"""
+    n = lw.skip(n)
+    while n.get('kind') == 'CallExpr' and lw.callee_ref(n).get('name') in ('move', 'forward'):
+        n = lw.skip(n['inner'][1])
+    if n.get('kind') == 'UnaryOperator' and n.get('opcode') == '&':
+        n = lw.skip(n['inner'][0])
+    try:
+        t = lw.ntype(n).rstrip('*')
+    except Unsupported:
+        return None, None, n
+    if t in VARIANTS or t == 'Listener':
+        return t, lw.expr(n), n
+    return None, None, n
+
+
+def _alt_by_ctype(vt, ct):
+    rows = [(i, r) for i, r in enumerate(VARIANTS[vt]) if r[1] == ct]
+    if len(rows) != 1:
+        raise Unsupported('variant %s has no unique alternative of C type %s' % (vt, ct))
+    return rows[0]
+
+
+def _obj(e):
+    """C lvalue expression -> expression usable before `.field`"""
+    return '(%s)' % e
+
+
+def variant_get_if(lw, node, args):
+    vt, ve, _ = _variant_of(lw, node['inner'][1])
+    if vt in VARIANTS:
+        ct = lw.ntype(lw.skip(node)).rstrip('*')
+        i, r = _alt_by_ctype(vt, ct)
+        lw.fire('variant:get_if:%s:%s' % (vt, r[0]))
+        return '(%s.index == %d ? &%s.%s : NULL)' % (_obj(ve), i, _obj(ve), r[2])
+    return get_if_c10(lw, node, args)
+
+
+def variant_get(lw, node, args):
+    vt, ve, _ = _variant_of(lw, node['inner'][1])
+    if vt == 'Listener':
+        # std::get<Manager>(d->listener): the current listener must be that manager (std::get throws otherwise)
+        ct = lw.ntype(lw.skip(node))
+        alts = lw.listener_alts or []
+        idx = [i for i, a in enumerate(alts) if lw.ctype(a) == ct]
+        if len(idx) != 1:
+            raise Unsupported('std::get<%s> on the listener variant' % ct)
+        lw.pre.append('__CPROVER_assert(%s.index == %d, "[post.std_get_names_the_active_alternative] std::get<%s>(listener) would throw");' % (_obj(ve), idx[0], ct))
+        lw.fire('variant:get:Listener:%s' % ct)
+        return '%s.%s' % (_obj(ve), alt_cname(alts[idx[0]]))
+    if vt in VARIANTS:
+        ct = lw.ntype(lw.skip(node))
+        i, r = _alt_by_ctype(vt, ct)
+        lw.pre.append('__CPROVER_assert(%s.index == %d, "[post.std_get_names_the_active_alternative] std::get<%s> would throw");' % (_obj(ve), i, r[0]))
+        lw.fire('variant:get:%s:%s' % (vt, r[0]))
+        return '%s.%s' % (_obj(ve), r[2])
+    return std_get_c10(lw, node, args)
+
+
+def _template_arg_from_source(lw, node, fname):
+    """std::holds_alternative<T>(v): clang's JSON does not carry T; it is read back from the source text of the call (which must parse)"""
+    b = node.get('range', {}).get('begin', {})
+    for k in ('spellingLoc', 'expansionLoc'):
+        if k in b:
+            b = b[k]
+            break
+    off = b.get('offset')
+    if off is None:
+        return None
+    for path_ in getattr(lw, 'source_files', []):
+        try:
+            data = open(path_, 'rb').read()
+        except OSError:
+            continue
+        m = re.match(r'(?:std::)?%s\s*<\s*([\w:]+)\s*>\s*\(' % fname, data[off:off + 200].decode('utf-8', 'replace'))
+        if m:
+            return m.group(1)
+    return None
+
+
+def variant_holds(lw, node, args):
+    vt, ve, _ = _variant_of(lw, node['inner'][1])
+    if vt not in VARIANTS:
+        raise Unsupported('holds_alternative on an unmodelled variant')
+    t = _template_arg_from_source(lw, node, 'holds_alternative')
+    if t is None:
+        raise Unsupported('holds_alternative: template argument not readable from the source')
+    last = t.split('::')[-1]
+    rows = [(i, r) for i, r in enumerate(VARIANTS[vt]) if r[0].split('::')[-1] == last]
+    if len(rows) != 1:
+        raise Unsupported('holds_alternative<%s>: no unique alternative in %s' % (t, vt))
+    lw.fire('variant:holds_alternative:%s:%s' % (vt, rows[0][1][0]))
+    return '(%s.index == %d)' % (_obj(ve), rows[0][0])
+
+
+def decomposition_pair(first_ct, second_ct):
+    """auto [a, b] = <pair expression>;   (structured binding of a std::pair modelled as {first, second})"""
+    def rule(lw, v, sp):
+        inner = [c for c in v.get('inner', []) if isinstance(c, dict) and c.get('kind')]
+        binds = [c for c in inner if c.get('kind') == 'BindingDecl']
+        init = [c for c in inner if c.get('kind') != 'BindingDecl']
+        if len(binds) != 2 or len(init) != 1:
+            raise Unsupported('structured binding of a pair with %d names' % len(binds))
+        e = lw.expr(init[0])
+        lw.flush(sp)
+        for bd, ct, f in ((binds[0], first_ct, 'first'), (binds[1], second_ct, 'second')):
+            cn, _ = lw.declare_local(bd, sp, ctype=ct)
+            lw.emit('%s%s %s = %s.%s;' % (sp, ct, cn, _obj(e), f))
+    return rule
+
+
+def extend_profile_negotiation(p):
+    p.types.update({
+        'BoundAddress': 'BoundAddress', PRIV + 'BoundAddress': 'BoundAddress', 'typename remove_reference<BoundAddress>::type': 'BoundAddress',
+        'ProtocolError': 'ProtocolError', PRIV + 'ProtocolError': 'ProtocolError', 'typename remove_reference<ProtocolError>::type': 'ProtocolError',
+        'QXmppStanza::Error': 'StanzaError', 'typename remove_reference<Error>::type': 'StanzaError',
+        'QXmpp::BindError': 'int', 'BindError': 'int',
+        'QXmpp::AuthenticationError': 'int', 'AuthenticationError': 'int', 'typename std::remove_reference<AuthenticationError &>::type': 'int',
+        'std::tuple_element<1,std::pair<QString,QXmpp::AuthenticationError>>::type': 'int',
+        'std::tuple_element<0,std::pair<QString,QXmpp::AuthenticationError>>::type': 'qstr',
+        'std::pair<QString,QXmpp::AuthenticationError>': 'AuthErrPair',
+        'QXmpp::Success': 'QXmppSuccess', 'Success': 'QXmppSuccess',
+        'QXmppError': 'QXmppErrorValue',
+        'QXmpp::Private::Sasl2::Success': 'Sasl2Success', 'Sasl2::Success': 'Sasl2Success', 'typename remove_reference<Success>::type': 'Sasl2Success',
+        'add_pointer_t<QXmpp::Private::Sasl2::Success>': 'Sasl2Success*',
+        'NonSaslAuthOptions': 'NonSaslAuthOptions', PRIV + 'NonSaslAuthOptions': 'NonSaslAuthOptions', 'typename remove_reference<NonSaslAuthOptions>::type': 'NonSaslAuthOptions',
+        'std::optional<SmResumed>': 'OptFlag', 'std::optional<QXmpp::Private::SmResumed>': 'OptFlag',
+        'std::optional<SmFailed>': 'OptFlag', 'std::optional<QXmpp::Private::SmFailed>': 'OptFlag',
+        'Bind2Bound': 'Bind2Bound', PRIV + 'Bind2Bound': 'Bind2Bound',
+        'typename std::remove_reference<optional<Bind2Bound> &>::type': 'OptBind2Bound',
+        'QXmppConfiguration::NonSASLAuthMechanism': 'int',
+        'QXmppTask<QXmpp::Private::BindManager::Result>': 'qtask', 'QXmppTask<BindManager::Result>': 'qtask',
+        'QXmppTask<QXmpp::Private::NonSaslAuthManager::AuthResult>': 'qtask', 'QXmppTask<NonSaslAuthManager::AuthResult>': 'qtask',
+        'QXmppTask<QXmpp::Private::NonSaslAuthManager::OptionsResult>': 'qtask', 'QXmppTask<NonSaslAuthManager::OptionsResult>': 'qtask',
+        'QXmppTask<std::variant<QXmpp::Success,QXmppError>>': 'qtask', 'QXmppTask<std::variant<QXmpp::Private::NonSaslAuthOptions,QXmppError>>': 'qtask',
+        'QXmppTask<std::variant<QXmpp::Private::BoundAddress,QXmppStanza::Error,QXmpp::Private::ProtocolError>>': 'qtask',
+    })
+    p.class_types.update({'BoundAddress', 'ProtocolError', 'StanzaError', 'AuthErrPair', 'QXmppSuccess', 'QXmppErrorValue', 'Sasl2Success', 'NonSaslAuthOptions', 'OptFlag', 'Bind2Bound'})
+    p.calls.update({
+        'fn:get_if/1': variant_get_if,
+        'fn:move/1': lambda lw, node, args: lw.expr(node['inner'][1]),   # std::move(x) is x
+        'fn:get/1': variant_get,
+        'fn:holds_alternative/1': variant_holds,
+        'decomposition:std::pair<QString,QXmpp::AuthenticationError>': decomposition_pair('qstr', 'int'),
+        'StanzaError::text/0': ('expr', '({0})->text'),
+        'expr:InitListExpr:int': lambda lw, n: _pure_or_fail(lw, n, '0 /* BindError{stanza error}: only the fact that the error is a bind error is represented */'),
+        'OptFlag::operator bool/0': ('expr', '({0})->has'),
+        'OptBind2Bound::operator bool/0': ('expr', '({0})->has'),
+        'op=:OptBind2Bound:OptBind2Bound': ('expr', '*{0} = *{1}'),
+        'op*:OptBind2Bound': ('expr', '(({0})->v)'),
+        # --- real one-line getters of C2sStreamManager (QXmppOutgoingClient.h), lowered in this unit
+        'C2sStreamManager::canRequestEnable/0': ('callee', 'C2sStreamManager_canRequestEnable'),
+        'C2sStreamManager::canRequestResume/0': ('callee', 'C2sStreamManager_canRequestResume'),
+        # --- the negotiation steps: real starters lowered here (SM resume / SM enable / bind) or contract-only (units/C10/steps.h)
+        'C2sStreamManager::requestResume/0': ('callee', 'C2sStreamManager_requestResume'),
+        'C2sStreamManager::requestEnable/0': ('callee', 'C2sStreamManager_requestEnable'),
+        'BindManager::bindAddress/1': ('callee', 'BindManager_bindAddress'),
+        'QXmppOutgoingClientPrivate::setListener/1': set_listener,
+        'NonSaslAuthManager::authenticate/5': ('callee', 'NonSaslAuthManager_authenticate'),
+        'QXmppConfiguration::setUser/1': ('callee', 'QXmppConfiguration_setUser'),
+        'QXmppConfiguration::setDomain/1': ('callee', 'QXmppConfiguration_setDomain'),
+        'QXmppConfiguration::setResource/1': ('callee', 'QXmppConfiguration_setResource'),
+        'QXmppConfiguration::setJid/1': ('callee', 'QXmppConfiguration_setJid'),
+        'QXmppConfiguration::resource/0': ('callee', 'QXmppConfiguration_resource'),
+        'QXmppConfiguration::user/0': ('callee', 'QXmppConfiguration_user'),
+        'QXmppConfiguration::password/0': ('callee', 'QXmppConfiguration_password'),
+        'QXmppConfiguration::nonSASLAuthMechanism/0': ('callee', 'QXmppConfiguration_nonSASLAuthMechanism'),
+        'FastTokenManager::onSasl2Success/1': ('callee', 'FastTokenManager_onSasl2Success'),
+        'C2sStreamManager::onSasl2Success/1': ('callee', 'C2sStreamManager_onSasl2Success'),
+        'C2sStreamManager::onBind2Bound/1': ('callee', 'C2sStreamManager_onBind2Bound'),
+    })
+    p.pure_fns.update({'description', 'text'})
+    return p
+
+
+def _pure_or_fail(lw, n, text):
+    for c in n.get('inner', []):
+        if isinstance(c, dict) and c.get('kind') and not lw.pure(c):
+            raise Unsupported('initialiser with side effects')
+    return text
+
+
+def find_lambdas(fn_decl):
+    """LambdaExpr nodes of a function in source order (nested ones after their parent).  Nested lambdas are looked for in the
+    concrete (for a generic lambda: instantiated) call operator of the parent, where their own instantiations live."""
+    found = []
+
+    def walk(n):
+        for c in n.get('inner', []):
+            if not isinstance(c, dict):
+                continue
+            if c.get('kind') == 'LambdaExpr':
+                found.append(c)
+                try:
+                    op = lambda_call_operator(c)
+                    body = [x for x in op.get('inner', []) if x.get('kind') == 'CompoundStmt']
+                except Unsupported:
+                    body = [x for x in c.get('inner', []) if x.get('kind') == 'CompoundStmt']
+                for b_ in body:
+                    walk(b_)
+                continue
+            walk(c)
+    walk(fn_decl)
+    return found
+
+
+def lambda_call_operator(lam):
+    """the unique body-carrying, concrete (instantiated for a generic lambda) operator() of a LambdaExpr"""
+    rec = [c for c in lam.get('inner', []) if c.get('kind') == 'CXXRecordDecl']
+    if not rec:
+        raise Unsupported('lambda without closure record')
+    ops = []
+    for c in rec[0].get('inner', []):
+        cands = []
+        if c.get('kind') == 'FunctionTemplateDecl':
+            cands = [x for x in c.get('inner', []) if x.get('kind') == 'CXXMethodDecl']
+        elif c.get('kind') == 'CXXMethodDecl' and c.get('name') == 'operator()':
+            cands = [c]
+        for op in cands:
+            if not any(x.get('kind') == 'CompoundStmt' for x in op.get('inner', [])):
+                continue
+            if any(re.search(r'\bauto\b', qt(x)) for x in op.get('inner', []) if x.get('kind') == 'ParmVarDecl'):
+                continue    # the uninstantiated generic pattern
+            ops.append(op)
+    if len(ops) != 1:
+        raise Unsupported('lambda: %d concrete operator() bodies' % len(ops))
+    return ops[0]
